@@ -555,8 +555,10 @@ func (c *c20Check) Minimise(v Viol) Viol {
 	}
 	best := v
 	budget := 40
+	deadline := time.Now().Add(4 * time.Minute) // long runs (property sweeps) get fewer attempts
 	holds := func(cand []map[string]uint32) bool {
-		if budget <= 0 {
+		if budget <= 0 || time.Now().After(deadline) {
+			budget = 0
 			return false
 		}
 		budget--
@@ -633,7 +635,7 @@ func (c *c20Check) Evidence(st Stats, tier string) (map[string]interface{}, []st
 	cov := map[string]interface{}{
 		"evaluations":                 s.Runs,
 		"distinct_nontrivial":         len(s.Scheds),
-		"rule":                        "one case = one seeded schedule of the real interpreter in a fresh OS process (-race build): start-up (di.InjectBuiltInProps, 19 loader tasks + main) or warm interpreter (2..6 concurrent evaluation tasks interning fresh symbols and converting symbols back); distinct_nontrivial = distinct hashes of the complete switch-decision sequence",
+		"rule":                        "one case = one seeded schedule of the real interpreter in a fresh OS process (-race build): start-up (di.InjectBuiltInProps, 19 loader tasks + main), warm interpreter (2..6 concurrent evaluation tasks: symbol-interning programs, free-form histories over a shared pool of values, or lockstep sweeps that read the shared values and built-in prototypes through every property, plainly and with private?: true) or HTTP handlers; distinct_nontrivial = distinct hashes of the complete switch-decision sequence",
 		"samples":                     s.Samples,
 		"startup_runs":                s.Startup,
 		"warm_runs":                   s.Warm,
